@@ -89,7 +89,8 @@ class RefCalc:
                     if x[0] == 'f' and x[1] not in ok_f:
                         return False
                     if x[0] == 'f' and x[1] in ('SUM', 'MAX', 'MIN', 'COUNT') \
-                            and any(a[0] not in ('r', 'nm') for a in x[2:]):
+                            and any(a[0] not in ('r', 'nm', 'u', 'x')
+                                    for a in x[2:]):
                         return False
                     if x[0] == 'op' and x[1] not in ('+', '-', '*', '>', '<',
                                                      '=', '>=', '<=', '<>'):
@@ -133,6 +134,21 @@ class RefCalc:
     def ref_values(self, e):
         if e[0] == 'nm':
             e = self.world['names'][e[1]]['t']
+        if e[0] == 'u':       # union: each area in turn (overlaps count twice)
+            out = []
+            for x in e[1:]:
+                out.extend(self.ref_values(x))
+            return out
+        if e[0] == 'x':       # intersection of two rectangles of one sheet
+            a, b = e[1], e[2]
+            if (a[1], a[2]) != (b[1], b[2]):
+                return [E]
+            r1, c1 = max(a[3], b[3]), max(a[4], b[4])
+            r2, c2 = min(a[5], b[5]), min(a[6], b[6])
+            if r1 > r2 or c1 > c2:
+                return [E]    # #NULL!
+            return [self.at((a[1], a[2], r, c)) for r in range(r1, r2 + 1)
+                    for c in range(c1, c2 + 1)]
         return [self.at(p) for p in rect_cells(e)]
 
     def scalar_of(self, e):
@@ -185,7 +201,7 @@ class RefCalc:
         if fn in ('SUM', 'MAX', 'MIN', 'COUNT'):
             vals = []
             for a in args:
-                if a[0] in ('r', 'nm'):
+                if a[0] in ('r', 'nm', 'u', 'x'):
                     vals.extend(self.ref_values(a))
                 else:
                     raise NotImplementedError('aggregate over expression')
